@@ -571,12 +571,14 @@ func c10MethodGate(c *Ctx) {
 		}
 		return o
 	}
-	isAlgPtr := func(v ssa.Value) bool {
-		return strings.HasSuffix(core.PathOf(v), "auth.Algorithm") || strings.HasSuffix(core.PathOf(v), ".Algorithm")
-	}
 	nAccept, nBad := 0, 0
 	firstBad := ""
 	ex := &pathExplorer{budget: 200000, anywhere: true}
+	// the algorithm pointer of the received header: X.Algorithm, possibly handed to a helper as a parameter
+	isAlgPtr := func(v ssa.Value) bool {
+		v = ex.val(v)
+		return strings.HasSuffix(core.PathOf(v), "auth.Algorithm") || strings.HasSuffix(core.PathOf(v), ".Algorithm")
+	}
 	ex.inline = func(h *ssa.Function) bool {
 		return h.Pkg == fn.Pkg && hashOfFn(h) == "" // helpers of pkg/auth, except the hash helpers themselves
 	}
